@@ -788,6 +788,13 @@ func (e *Exec) builtin(name string, call *ast.CallExpr, c *Ctx, want int) []Term
 
 // ---------------------------------------------------------------- inlining
 
+func topFrameOf(fr *Frame) *Frame {
+	for fr != nil && !fr.top {
+		fr = fr.parent
+	}
+	return fr
+}
+
 func (e *Exec) newFrame(fi *FuncInfo, parent *Frame, subst map[*types.TypeParam]types.Type) *Frame {
 	fr := &Frame{fi: fi, info: fi.Pkg.TypesInfo, pkg: fi.Pkg, subst: subst, names: map[string]string{}, ntypes: map[string]*Type{},
 		closures: map[string]*ast.FuncLit{}, parent: parent}
@@ -900,6 +907,23 @@ func (e *Exec) inline(fi *FuncInfo, recv *Term, args []Term, call *ast.CallExpr,
 	e.stack = append(e.stack, name)
 	defer func() { e.stack = e.stack[:len(e.stack)-1] }()
 	fr := e.newFrame(fi, c.fr, e.calleeSubst(fi, recv, c, inst))
+	// loops of the top function that moved into this (new, contract-less) helper keep the ordinals its contract knows
+	// them by; names of loop clauses are looked up here first, then in the calling frames
+	if top := topFrameOf(c.fr); top != nil && top.contract != nil && len(top.contract.LoopRemap) > 0 {
+		var ords map[ast.Node]int
+		ast.Inspect(fi.Decl.Body, func(x ast.Node) bool {
+			if o, ok := top.contract.LoopRemap[x]; ok {
+				if ords == nil {
+					ords = map[ast.Node]int{}
+				}
+				ords[x] = o
+			}
+			return true
+		})
+		if ords != nil {
+			fr.hosted, fr.contract, fr.loopOrd, fr.entry = true, top.contract, ords, top.entry
+		}
+	}
 	// promoted method through embedded fields: walk the implicit path
 	if recv != nil && sel != nil && len(sel.Index()) > 1 {
 		cur := *recv
